@@ -26,10 +26,13 @@ TH_POOL = [-2.0, -0.5, 0.0, 0.25, 1.0, 2.5, 5.0]
 Q_POOL = [0.0, 0.1, 0.25, 0.5, 0.75, 0.9, 1.0]
 
 
-def time_pool(boundary_heavy=True, half_hours=False, before_2037=False):
+def time_pool(boundary_heavy=True, half_hours=False, before_2037=False, pre1970=False):
     pool = [d for d in INTERESTING_DAYS if d < 20370101] if before_2037 else INTERESTING_DAYS
+    if pre1970:
+        # initialisation times before the unix epoch (negative unix times): reanalyses and station records go back that far
+        pool = pool + [19691231, 19691230, 19600229, 19000101, 19691231]
     days = st.sampled_from(pool).map(lambda d: model.date_to_unix(d) // 86400)
-    anyday = st.integers(0, 24000 if before_2037 else 47481)  # 1970-01-01 .. 2035 / 2099-12-31
+    anyday = st.integers(-25567 if pre1970 else 0, 24000 if before_2037 else 47481)  # (1900-01-01 |) 1970-01-01 .. 2035 / 2099-12-31
     day = st.one_of(days, days, anyday) if boundary_heavy else anyday
     hours = HOURS + ([0.5, 13.5, 22.25, 6.25, 12.75, 23.5] if half_hours else [])
     return st.tuples(day, st.sampled_from(hours)).map(lambda dh: int(dh[0] * 86400 + dh[1] * 3600))
@@ -99,7 +102,7 @@ MASK_MODES_NOALL = st.sampled_from(["dense", "dense", "dense", "none", "one", "s
 @st.composite
 def dataset(draw, max_inputs=4, min_inputs=1, clim="maybe", flavor="det", core_max=3, extra_max=2,
             allow_drop=True, allow_obsless=True, boundary_heavy=True, ordered_dims=False, max_members=4,
-            var_x=False, allow_all_missing=True, half_hours=False, other_pool=("temp", "wind", "zscore"), per_input_layout=True, before_2037=False, own_obs=False, clim_other=False, allow_crossing=False):
+            var_x=False, allow_all_missing=True, half_hours=False, other_pool=("temp", "wind", "zscore"), per_input_layout=True, before_2037=False, own_obs=False, clim_other=False, allow_crossing=False, pre1970=False):
     """flavor: 'det' (obs, fcst) | 'prob' (+cdf, quantiles, pit) | 'ens' (+ensemble) | 'full' (all) | 'mix' """
     if flavor == "mix":
         flavor = draw(st.sampled_from(["det", "det", "prob", "ens", "full"]))
@@ -111,7 +114,7 @@ def dataset(draw, max_inputs=4, min_inputs=1, clim="maybe", flavor="det", core_m
     nTe = draw(st.integers(0, extra_max))
     nLe = draw(st.integers(0, extra_max))
     nSe = draw(st.integers(0, extra_max))
-    times = draw(st.lists(time_pool(boundary_heavy, half_hours, before_2037), min_size=nTc + nTe, max_size=nTc + nTe, unique=True))
+    times = draw(st.lists(time_pool(boundary_heavy, half_hours, before_2037, pre1970), min_size=nTc + nTe, max_size=nTc + nTe, unique=True))
     leads = draw(st.lists(st.sampled_from(LEADTIMES), min_size=nLc + nLe, max_size=nLc + nLe, unique=True))
     ids = draw(st.lists(st.sampled_from(LOC_IDS), min_size=nSc + nSe, max_size=nSc + nSe, unique=True))
     if ordered_dims:
